@@ -1,5 +1,6 @@
 """C17 — subscriptions map each source event to one isolated result, in order."""
 import asyncio
+import json
 
 from hypothesis import given, seed, strategies as st
 
@@ -230,6 +231,11 @@ def check_case(case, ctx=None):
     from py_gql.lang import parse
     from py_gql.validation import validate_ast
     spec = GS.Spec(case["spec"])
+    if case.get("refusal") == "query-operation-shared-root":
+        # one object type serves as query AND subscription root (June 2018 does not ask for distinct root types): what makes an
+        # operation a subscription is its keyword, not the type it starts from
+        spec = GS.Spec(json.loads(json.dumps(case["spec"])))
+        spec["query"] = spec["subscription"]
     schema, eff, holder = build(spec, "sdl", case["world"]["salt"], case["sub_kind"], case.get("refusal") == "missing-resolver")
     req = case["request"]
     wj = case["world"]
@@ -246,6 +252,12 @@ def check_case(case, ctx=None):
         text = "subscription { %s %s }" % (leafs[0], leafs[1])
     elif refusal == "query-operation":
         text = "query { __typename }"
+    elif refusal == "query-operation-shared-root":
+        names = [f["name"] for f in eff.fields(eff["subscription"]) if not f.get("args")]
+        leafs = [n for n in names if eff.is_leaf(GS.named(GS.parse_t(eff.field(eff["subscription"], n)["type"])))]
+        if not leafs:
+            return None
+        text = ("query { %s }", "{ %s }", "query Q { %s }")[case["world"]["salt"] % 3] % leafs[0]
     elif refusal in ("blocking-runtime", "threadpool-runtime"):
         runtime_kind = refusal.split("-")[0]
     if refusal is None:
@@ -272,7 +284,7 @@ def check_case(case, ctx=None):
                 path = tuple(r0.calls[-1 - (ci % len(r0.calls)) if ci % 3 else -1][0])
                 world.boom.add((ev["__ev__"], path))
                 boom_events[ev["__ev__"]] = path
-    out = run_subscription(schema, text, {} if refusal in ("several-fields", "query-operation") else req["variables"], world,
+    out = run_subscription(schema, text, {} if refusal in ("several-fields", "query-operation", "query-operation-shared-root") else req["variables"], world,
                            case["schedule"], runtime_kind, in_thread=bool(case.get("in_thread")))
     if refusal is not None:
         from py_gql.exc import ExecutionError
@@ -340,7 +352,7 @@ def cases(draw):
     spec = draw(GS.specs(input_defaults=False, with_subscription=True, with_mutation=False))
     eff = H.sdl_view(spec)
     req = draw(GD.requests(eff, op_kind="subscription", multi_op=False))
-    refusal = draw(st.sampled_from([None] * 8 + ["several-fields", "missing-resolver", "query-operation", "blocking-runtime", "threadpool-runtime"]))
+    refusal = draw(st.sampled_from([None] * 8 + ["several-fields", "missing-resolver", "query-operation", "query-operation-shared-root", "blocking-runtime", "threadpool-runtime"]))
     return {"spec": spec, "request": req, "refusal": refusal,
             "world": {"salt": draw(st.integers(0, 10 ** 6)), "p_err": draw(st.sampled_from([0, 3, 5, 9])),
                       "p_null": draw(st.sampled_from([0, 5, 9])), "p_null_item": draw(st.sampled_from([0, 4]))},
